@@ -1031,7 +1031,7 @@ static int set_tcp_connect_timeout_attr(struct xcm_socket *s, void *context,
     double timeout;
     xcm_tp_set_double_attr(value, len, &timeout);
 
-    if (timeout < 0) {
+    if (!(timeout >= 0)) {
 	errno = EINVAL;
 	return -1;
     }
